@@ -13,11 +13,13 @@ import random
 
 PROPERTY = "C17"
 RULE = (
-    "case kinds: (constraint) class x bounds (scalar, tensor, infinite side) x dtype x raw-value chunk over +-1e-300..+-1e300 incl. subnormals; "
-    "(setter) one (module, parameter) pair found by reflection over exported kernels/likelihoods/means x value regime (interior, near bound, "
-    "large, out of bounds); (sequence) module x random sequence of set / initialize / optimiser step (Adam/SGD/LBFGS, lr up to 10) / load_state_dict / "
-    "sample_from_prior with the invariant hook after each; (prior) prior class x parameters: 200-point density comparison + normalisation; "
-    "distinct = cell without seed; non-trivial iff >=1 finite bound (constraint) / value != default (setter)"
+    'case kinds: (constraint) class x bounds (scalar, tensor, infinite side) x dtype x raw-value chunk over +-1e-300..+-1e300 incl. subnormals; '
+    '(setter) one (module, parameter) pair found by reflection over exported kernels/likelihoods/means x value regime (interior, near bound, '
+    'large, out of bounds); (sequence) module x random sequence of set / initialize / optimiser step (Adam/SGD/LBFGS, lr up to 10) / '
+    'load_state_dict / sample_from_prior with the invariant hook after each; (prior) prior class x parameters: 200-point density comparison + '
+    'normalisation; (ctor_priors) every `<parameter>_prior=` constructor argument of 25 classes: closure reads / setting closure writes its own '
+    'parameter; setters also under a distinct custom constraint per parameter; distinct = cell without seed; non-trivial iff >=1 finite bound '
+    '(constraint) / value != default (setter)'
 )
 REQUIRED = ["transform_in_bounds", "transform_monotone", "inverse_roundtrip", "setter_roundtrip", "out_of_bounds_rejected", "invariant_after_mutation", "prior_log_prob", "prior_normalised", "prior_closure_sees_constrained", "sample_from_prior_readback"]
 ASSUMPTIONS = [
